@@ -58,8 +58,27 @@ T4 = [
  ("C19","m1","route/zz_demo_c19_test.go",{"C19":"event_handled_more_than_once"},"caught","","C19-m3"),
  ("C36","m2","collect/demo_stop_inflight_decision_test.go",{"C36":"accepted_span_lost_at_shutdown"},"missed, then caught after strengthening","new fault: every worker is held at its next decision (tracer seam) some time before the shutdown and let go after Stop has been called, so the rest of a decision round happens during the shutdown; a lost span whose trace the decision cache remembers as kept (and with no span queued at the stop) is not attributed to the recorded finding","C36-m3"),
 ]
+T5 = [
+ # wave 5 (/tmp/mutout5): prompts asked for one interleaving-only and one fault-only change per property.
+ # Not stored (repeats): C02 m2 (= C02-m1), C34 m2 (= C34-m2), C35 m1 (= C35-m2).
+ ("C02","m1","collect/demo_m1_test.go",{"C01":"trace_decided_twice","C31":"dropped_decision_not_answered_dropped"},"caught (by C01 and C31; C02's own runs did not reach a second, different decision)","","C02-m3"),
+ ("C05","m1","collect/demo_c05_m1_test.go",{"C05":"dry_run_kept_field_missing"},"caught","","C05-m3"),
+ ("C05","m2","collect/demo_c05_m2_test.go",{"C05":"dry_run_span_not_forwarded","C02":"dry_run_span_not_forwarded"},"caught","","C05-m4"),
+ ("C06","m1","collect/demo_c06m1_test.go",{"C06":"rule_reason"},"caught","","C06-m3"),
+ ("C06","m2","collect/demo_c06m2_test.go",{"C06":"root_counts"},"caught","","C06-m4"),
+ ("C30","m1","internal/health/demo_test.go",{"C30":"reporting_subsystem_reported_dead"},"missed, then caught after strengthening","new schedule: the Logger double given to Health runs a hook inside Ready (Health logs a state change in the middle of Ready) that starts an Unregister of the same subsystem on another goroutine","C30-m3"),
+ ("C30","m2","internal/health/demo_test.go",{"C30":"silent_subsystem_not_reported_dead"},"caught","","C30-m4"),
+ ("C32","m1","generics/setttl_race_demo_test.go",{"C32":"absent_before_expiry"},"missed, then caught after strengthening","new schedule: the clock given to the set/map runs a hook in the lookup's clock read (between finding an entry and judging it) that refreshes the same element on another goroutine; the lookup is preceded by time passing beyond the expiry with no query in between, so it finds an expired entry not yet cleaned away","C32-m3"),
+ ("C32","m2","generics/mapttl_burst_demo_test.go",{"C32":"queries_disagree"},"missed, then caught after strengthening","bursts of up to 3000 entries that expire together","C32-m4"),
+ ("C33","m1","metrics/demo_test.go",{"C33":"history_not_linearizable"},"caught","","C33-m3"),
+ ("C33","m2","metrics/demo_test.go",{"C33":"history_not_linearizable"},"missed, then caught after strengthening","new fault: a child backend of the MultiMetrics (where Prometheus/OTel would be) panics in plan-chosen calls; a call that ended in a panic is tried both as having taken effect and as not","C33-m4"),
+ ("C34","m1","agent/demo_m1_test.go",{"C34":"usage_lost"},"caught","","C34-m3"),
+ ("C35","m2","route/demo_c35m2_test.go",{"C35":"data_race","C23":"accepted_event_not_accounted_once"},"missed, then caught after strengthening","clients now also send zstd-compressed bodies, some of which do not decode; some requests carry an environment key whose lookup answers only after a while, so that a handler is in progress (holding its body buffer) while other requests come and go - in the race runs and, with a functional oracle, in C23","C35-m3"),
+]
 if os.environ.get("WAVE") == "3":
     T = T3
+if os.environ.get("WAVE") == "5":
+    T = T5
 if os.environ.get("WAVE") == "4":
     T = T4
 for row in T:
